@@ -17,6 +17,11 @@ bytes (no bound other than the 1000-byte reply buffer where it matters).
 * `client_any_other_text_is_ascii`    client: any reply without NUL bytes ⇒ ASCII, one LF
 Timing ("however long (below 2 s) it takes", "silent for the probe window"):
 * `timeouts_are_two_seconds`          both regenerated probe deadlines are the 2000 ms the property speaks of
+                                      (`timeouts_are_the_window_of_the_property_text`: = `Spec.Net.probeWindowMs`, the
+                                      number the monitor takes from the property text)
+* `probe_window_is_the_constant_deadline`   the first deadline call site regenerated from `ConnectToPanel` (in the
+                                      connection loop, before the probe `Read`) is `SetReadDeadline(now + 2000 ms)` with a
+                                      constant argument: the same window on the first connection and on every reconnect
 * `late_is_silence`                   a reply that comes at or after the probe deadline is not seen: the verdict is
                                       that of silence (ASCII, exactly one LF), for both entry points
 * `ack_before_timeout_is_binary`      an acknowledge frame (any well-formed frame that fits) at any delay below the
@@ -306,8 +311,21 @@ theorem errormsg_absent :
 
 /-! ### timing -/
 
-/-- the two probe deadlines regenerated from the sources are the "2 s" of the property -/
+/-- the two probe deadlines regenerated from the sources are the "2 s" of the property (the number the monitor uses) -/
 theorem timeouts_are_two_seconds : probeTimeout = 2000 ∧ detectorTimeout = 2000 := ⟨rfl, rfl⟩
+
+theorem timeouts_are_the_window_of_the_property_text :
+    probeTimeout = Spec.Net.probeWindowMs ∧ detectorTimeout = Spec.Net.probeWindowMs := by decide
+
+/-- **the probe window is that constant on every connection**: the first `Set…Deadline` call site of `ConnectToPanel`
+(regenerated from the source on this run) sits in the connection loop before the probe `Read` and is
+`SetReadDeadline(time.Now().Add(probeTimeout))` with a *constant* argument — the same window on the first connection and
+on every reconnect.  A window kept in a variable (seeded change C12-9) is not a constant argument: this fails. -/
+theorem probe_window_is_the_constant_deadline :
+    (cfgOfSites Gen.deadlineSites).map (·.probeArm) = some (.arm .read probeTimeout) := by decide
+
+example : (cfgOfSites [{ fn := 0, clear := false, addMs := none, loops := 1, path := [0], first := false, reads := 0 }]).map
+    (·.probeArm) = none := by decide
 
 /-- **a late reply is silence**: whatever the panel sends (or if it closes) at or after the probe deadline, the single
 `Read` has already returned a timeout; both entry points then classify ASCII and write exactly one LF -/
